@@ -4,12 +4,9 @@ go 1.23
 
 require (
 	github.com/compose-spec/compose-go/v2 v2.0.0
-<<<<<<< HEAD
 	github.com/distribution/reference v0.5.0
 	github.com/opencontainers/go-digest v1.0.0
 	github.com/sirupsen/logrus v1.9.0
-=======
->>>>>>> ag-C20
 	gopkg.in/yaml.v3 v3.0.1
 )
 
